@@ -67,3 +67,14 @@ func VerifEffectiveReplayWindow(c *Conn) int {
 	}
 	return c.replayWindow.size
 }
+
+// VerifSetWriteSeq moves the connection's write sequence number (within the current epoch) forward to seq, so
+// that the harness reaches sequence numbers near 2^16, 2^32, 2^40 ... without sending that many records. It is
+// the one accessor here that changes state; it does what sending seq-writeSeq records would do to the counter.
+func VerifSetWriteSeq(c *Conn, seq uint64) {
+	c.out.Lock()
+	defer c.out.Unlock()
+	if uint48(seq) > c.writeSeq {
+		c.writeSeq = uint48(seq)
+	}
+}
